@@ -319,6 +319,14 @@ def oracle(c, want_grads=True):
     tag = f"C13:{c['kind']}:{'padded' if c['inp'] == 'pad' else 'packed'}"
     try:
         t, d = build(c)
+        if c.get("via_fix") and c["kind"] == "lstm":
+            from opacus.validators import lstm as vl
+
+            if not vl.validate(t):
+                return ("C13:lstm:validator", "validators/lstm.validate(nn.LSTM) reports no error although nn.LSTM is not supported", {})
+            d = vl.fix(t)
+            if type(d).__name__ != "DPLSTM" or d is t:
+                return ("C13:lstm:fixer", f"validators/lstm.fix returned {type(d).__name__}", {})
     except Exception as e:
         return (f"{tag}:load_state_dict", f"loading the torch state_dict into the DP layer raised {type(e).__name__}: {e}", {})
     tk, dk = list(t.state_dict().keys()), list(d.state_dict().keys())
@@ -717,10 +725,14 @@ def run(ctx):
         names_corr(ctx)
         csl_corr(ctx)
         err_corr(ctx)
-        cases = [gen_case(ctx.rng) for _ in range(ctx.n(150, 1500))]
+        cases = [gen_case(ctx.rng) for _ in range(ctx.n(300, 3000))]
         run_cases(ctx, cases)
         # failing-input search on the real code (no model involved)
-        search = [gen_case(ctx.rng, mode="float") for _ in range(ctx.n(120, 1200))]
+        search = [gen_case(ctx.rng, mode="float") for _ in range(ctx.n(250, 2500))]
+        for c in search:
+            if c["kind"] == "lstm" and ctx.rng.random() < 0.5:
+                c["via_fix"] = 1   # DP layer obtained through ModuleValidator's fixer (validators/lstm.py)
+                ctx.count("search:via-validators.lstm.fix")
         if ctx.thorough:
             search += grid_cases(ctx.rng, sorted(KINDS))
             ctx.extra["exhaustive_small_scope"] = "full grid layers 1-3 x bidirectional x bias x batch_first x {padded, packed sorted, packed unsorted} x initial state, 4 cell kinds (1152 configurations), outputs + states + gradients"
